@@ -307,11 +307,22 @@ def totals (bs : List CB.EBlock) : List String :=
    s!"inputs={(bs.flatMap (·.blk.txs)).foldl (fun a t => a + t.icnt.value) 0}",
    s!"outputs={(bs.flatMap (·.blk.txs)).foldl (fun a t => a + t.ocnt.value) 0}"]
 
+/-- completion summary of unspentcsvdump: transactions and inputs as csvdump, outputs = the address-bearing outputs inserted -/
+def totalsUnspent (ver : UInt8) (bs : List CB.EBlock) : List String :=
+  (totals bs).take 2 ++ [s!"outputs={CB.insertedCount ver bs}"]
+
+/-- dev-profile panics inside the callbacks (exit status 101) -/
+def callbackPanics (o : Opts) (ver : UInt8) (bs : List CB.EBlock) : Bool :=
+  match o.callback with
+  | "simplestats" => CB.statsPanics ver bs
+  | "balances" => CB.balancePanics (CB.utxo ver bs)
+  | _ => false
+
 def callbackOut (o : Opts) (ver : UInt8) (last : Nat) (bs : List CB.EBlock) : List (String × List String) × List String :=
   match o.callback with
   | "csvdump" => (csvFiles ver o.start last bs, totals bs)
   | "unspentcsvdump" =>
-    ([(s!"unspent-{o.start}-{last}.csv", "txid;indexOut;height;value;address" :: CB.unspentRows (CB.utxo ver bs))], totals bs)
+    ([(s!"unspent-{o.start}-{last}.csv", "txid;indexOut;height;value;address" :: CB.unspentRows (CB.utxo ver bs))], totalsUnspent ver bs)
   | "balances" =>
     ([(s!"balances-{o.start}-{last}.csv", "address;balance" :: CB.balanceRows (CB.utxo ver bs))], [])
   | "opreturn" => ([], CB.opreturnLines ver bs)
@@ -338,6 +349,7 @@ def run (o : Opts) (key : Option Bytes) (kvs : List (Bytes × Bytes)) (files : L
       | .errorAt h m => ⟨1, some h, m, heights, hashes, [], [], d.events⟩
       | .panicAt h m => ⟨101, some h, m, heights, hashes, [], [], d.events⟩
       | .complete =>
+        if callbackPanics o coin.version d.blocks then ⟨101, none, "panic in callback", heights, hashes, [], [], d.events⟩ else
         let last := (o.start + d.blocks.length) - 1
         let (fs, out) := callbackOut o coin.version last d.blocks
         ⟨0, none, "", heights, hashes, fs, out, d.events⟩
